@@ -145,6 +145,27 @@ class C11(runner.Prop):
         # loaded *outside* the dict-order mode block
         loaded = pickle.loads(blob)
         compare_loaded(loaded, spec, ms, ctx, 'same_process')
+        # treespecs derived from it (children / one-level / composed / rebuilt from a collection) keep the
+        # parent's flags and namespace: they must survive the round trip exactly as well
+        if case['remote'] is None:
+            derived = []
+            kids = spec.children()
+            for i, (k, km) in enumerate(zip(kids[:3], ms.children[:3])):
+                derived.append((f'child{i}', k, km))
+            if spec.one_level() is not None and not (ms.kind == 'custom' and ms.type.__name__ == 'partial'):
+                # (a one-level partial cannot be rebuilt from leaf tokens: it destructures its children)
+                derived.append(('one_level', spec.one_level(), model.shell_of(ms)))
+            comp = spec.compose(optree.treespec_leaf(none_is_leaf=cfg['nil']))
+            derived.append(('compose_leaf', comp, ms))
+            derived.append(('transform_id', spec.transform(lambda x: x), ms))
+            for name, d, dm in derived:
+                try:
+                    back = pickle.loads(pickle.dumps(d, protocol=proto))
+                except Exception as e:  # noqa: BLE001
+                    ctx.fail(f'derived/{name}/raises', f'{type(e).__name__}: {e}')
+                    continue
+                compare_loaded(back, d, dm, ctx, f'derived/{name}')
+            ctx.label('derived_specs')
         if case['remote'] is None:
             compare_loaded(copy.copy(spec), spec, ms, ctx, 'copy')
             compare_loaded(copy.deepcopy(spec), spec, ms, ctx, 'deepcopy')
